@@ -137,7 +137,10 @@ def run_case(case):
     off = bool(case.get("fix_offset"))
     if off:                     # ... or fixed AWAY from its generating value (the free ones must adapt to it)
         v0 = th[case["fix_param"]]
-        fixed[case["fix_param"]] = v0 * 1.25 + 0.15 if case["fix_offset"] == "up" else v0 * 0.8 - (0.1 if TRANS[fam][case["fix_param"]] in ("logscale", "none") or (fam == "NormalDistribution" and case["fix_param"] == "mu") else 0.0)
+        if case["fix_offset"] == "zero":      # a location-like parameter fixed at exactly 0 (falsy) although the data sit elsewhere
+            fixed[case["fix_param"]] = 0.0
+        else:
+          fixed[case["fix_param"]] = v0 * 1.25 + 0.15 if case["fix_offset"] == "up" else v0 * 0.8 - (0.1 if TRANS[fam][case["fix_param"]] in ("logscale", "none") or (fam == "NormalDistribution" and case["fix_param"] == "mu") else 0.0)
 
     def start_for(c):
         if startk == "default":
@@ -253,7 +256,11 @@ def main(ctx):
                             cases.append({"family": fam, "theta": th, "n": n, "seed": seed, "start": st, "fix_gamma": fg,
                                           "scales": [0.5, 3.0], "fix_param": pn})
                             if n <= 1000:
-                                for od in ("up", "down"):
+                                ods = ["up", "down"]
+                                if (fam, pn) in (("NormalDistribution", "mu"), ("LogNormalDistribution", "mu"), ("VonMisesDistribution", "mu"),
+                                                 ("GumbelR", "loc")) and th[pn] != 0:
+                                    ods.append("zero")
+                                for od in ods:
                                     cases.append({"family": fam, "theta": th, "n": n, "seed": seed, "start": st, "fix_gamma": fg,
                                                   "scales": [], "fix_param": pn, "fix_offset": od})
     for c in cases:
